@@ -1,6 +1,7 @@
 package c18
 
 import (
+	"os"
 	"sort"
 	"testing"
 
@@ -15,7 +16,11 @@ func TestC18LockPaths(t *testing.T) {
 	if i, _ := rep.Shard(); i != 0 {
 		return
 	}
-	findings, st, err := lockpaths.Analyze("/repo")
+	repo := "/repo"
+	if v := os.Getenv("VERIF_REPO"); v != "" {
+		repo = v
+	}
+	findings, st, err := lockpaths.Analyze(repo)
 	if err != nil {
 		r.Violate(rep.Violation{Oracle: "harness", Signature: "harness:lockpaths", Detail: err.Error()})
 
